@@ -50,18 +50,26 @@ func (k *FieldKeyStore) GetKeyPair() (*rsa.PrivateKey, []byte, error) {
 	return k.Key, k.Cert, nil
 }
 
+// FaultCtl switches the signers of one SP configuration between working and failing (an HSM
+// or remote signer that is temporarily unavailable).
+type FaultCtl struct {
+	Fail  bool
+	Calls int
+	Fired int
+}
+
 // FaultySigner wraps a crypto.Signer and fails on demand.
 type FaultySigner struct {
 	crypto.Signer
-	Fail  bool
-	Calls int
+	Ctl *FaultCtl
 }
 
 var ErrSignerFault = errors.New("simulated signer failure")
 
 func (f *FaultySigner) Sign(r io.Reader, digest []byte, opts crypto.SignerOpts) ([]byte, error) {
-	f.Calls++
-	if f.Fail {
+	f.Ctl.Calls++
+	if f.Ctl.Fail {
+		f.Ctl.Fired++
 		return nil, ErrSignerFault
 	}
 	return f.Signer.Sign(r, digest, opts)
